@@ -771,7 +771,10 @@ fn decoded_of(tx: &conway::Tx) -> Result<Decoded, String> {
 
 #[derive(Default)]
 struct Best {
+    /// witnesses at states whose build outcome does not depend on HashMap iteration order
     count: u64,
+    /// witnesses at order-dependent states (not reproducible run to run, reported separately)
+    count_order_dependent: u64,
     hist: Vec<Ev>,
     what: String,
     extra: Value,
@@ -783,6 +786,7 @@ struct Acc {
     build_ok: AtomicU64,
     build_err: Mutex<BTreeMap<String, u64>>,
     build_panic: AtomicU64,
+    order_dependent_states: AtomicU64,
     staging_skips: Mutex<BTreeMap<String, (u64, Vec<String>)>>,
     divergences: Mutex<BTreeMap<String, (u64, Vec<String>)>>,
     redeemer_pointer_checks: AtomicU64,
@@ -793,16 +797,21 @@ struct Acc {
     violations: Mutex<BTreeMap<String, Best>>,
 }
 
-fn hist_rank(h: &[Ev]) -> (usize, String) {
-    (h.len(), format!("{h:?}"))
+fn hist_rank(h: &[Ev]) -> (usize, Vec<usize>) {
+    let all = all_events();
+    (h.len(), h.iter().map(|e| all.iter().position(|x| x == e).unwrap_or(usize::MAX)).collect())
 }
 
 impl Acc {
-    fn violation(&self, fp: String, what: String, hist: &[Ev], extra: Value) {
+    fn violation(&self, fp: String, what: String, hist: &[Ev], extra: Value, order_dependent: bool) {
         let mut v = self.violations.lock().unwrap();
         let e = v.entry(fp).or_default();
-        e.count += 1;
-        if e.count == 1 || hist_rank(hist) < hist_rank(&e.hist) {
+        if order_dependent {
+            e.count_order_dependent += 1;
+        } else {
+            e.count += 1;
+        }
+        if e.count + e.count_order_dependent == 1 || hist_rank(hist) < hist_rank(&e.hist) {
             e.hist = hist.to_vec();
             e.what = what;
             e.extra = extra;
@@ -878,11 +887,41 @@ fn run_history(acc: &Acc, hist: &[Ev]) -> Outcome {
     }
     let replay = |extra: Value| json!({"history": hist.iter().map(|e| e.describe()).collect::<Vec<_>>(), "events": format!("{hist:?}"), "detail": extra});
 
+    // build_conway_raw walks the redeemer HashMap in its (per-process random) iteration
+    // order and stops at the first redeemer that fails. When two staged redeemers fail for
+    // different reasons, which failure is reported is not reproducible; such states are
+    // evaluated (a violation seen there is still reported) but they are neither pruned nor
+    // counted by outcome, so that the exploration and its counts are the same on every run.
+    let failing_classes: BTreeSet<&str> = staged
+        .redeemers
+        .iter()
+        .filter_map(|(p, (data, ex))| {
+            if ex.is_none() {
+                Some("no-ex-units")
+            } else if refcbor::parse_one(data).is_err() {
+                Some("malformed-data")
+            } else if match p {
+                Purpose::Spend(i) => !staged.content.inputs.contains(i),
+                Purpose::Mint(pid) => !staged.content.mint.contains_key(pid),
+            } {
+                Some("target-missing")
+            } else {
+                None
+            }
+        })
+        .collect();
+    let order_dependent = failing_classes.len() >= 2;
+    if order_dependent {
+        acc.order_dependent_states.fetch_add(1, Ordering::Relaxed);
+    }
+
     // ---- build at this state
     let st2 = st.clone();
     let built: BuiltTransaction = match catch(move || st2.build_conway_raw()) {
         Err(p) => {
-            acc.build_panic.fetch_add(1, Ordering::Relaxed);
+            if !order_dependent {
+                acc.build_panic.fetch_add(1, Ordering::Relaxed);
+            }
             // Which public entry point panics: a staged output on its own, or the body assembly.
             let outs: Vec<&Output> = st.outputs.iter().flatten().chain(st.collateral_output.iter()).collect();
             let in_output = outs.iter().any(|o| catch(|| o.build_babbage_raw().map(|_| ())).is_err());
@@ -892,11 +931,14 @@ fn run_history(acc: &Acc, hist: &[Ev]) -> Outcome {
                 format!("{entry} panicked: {} at {}", p.message, p.location),
                 hist,
                 replay(json!({"panic": p.message, "location": p.location})),
+                order_dependent,
             );
-            return Outcome::Violation;
+            return if order_dependent { Outcome::State(key) } else { Outcome::Violation };
         }
         Ok(Err(e)) => {
-            *acc.build_err.lock().unwrap().entry(format!("{e:?}")).or_default() += 1;
+            if !order_dependent {
+                *acc.build_err.lock().unwrap().entry(format!("{e:?}")).or_default() += 1;
+            }
             return Outcome::State(key);
         }
         Ok(Ok(b)) => b,
@@ -906,7 +948,7 @@ fn run_history(acc: &Acc, hist: &[Ev]) -> Outcome {
     let bytes_hex = hex::encode(&bytes);
     let mut bad = false;
     let mut fail = |fp: String, what: String, extra: Value| {
-        acc.violation(fp, what, hist, replay(json!({"tx_bytes": bytes_hex, "more": extra})));
+        acc.violation(fp, what, hist, replay(json!({"tx_bytes": bytes_hex, "more": extra})), false);
         bad = true;
     };
 
@@ -1096,7 +1138,7 @@ pub fn run(ctx: Ctx) -> ! {
     }
     let wide = wide_alphabet();
     let deep = deep_alphabet();
-    let (wide_depth, deep_depth) = if ctx.thorough { (4, 7) } else { (3, 6) };
+    let (wide_depth, deep_depth) = if ctx.thorough { (4, 9) } else { (3, 6) };
     let cfg = |d| bfs::Config { max_depth: d, max_states: 40_000_000, parallel: true };
     let s_wide = bfs::explore(init_key.clone(), |_h: &[Ev]| wide.clone(), |h: &[Ev]| run_history(&acc, h), &cfg(wide_depth));
     let s_deep = bfs::explore(init_key, |_h: &[Ev]| deep.clone(), |h: &[Ev]| run_history(&acc, h), &cfg(deep_depth));
@@ -1107,7 +1149,7 @@ pub fn run(ctx: Ctx) -> ! {
     order.sort_by_key(|(fp, b)| (hist_rank(&b.hist), (*fp).clone()));
     for (fp, b) in order {
         ctx.violation(fp.clone(), format!("{} (shortest history: {} calls)", b.what, b.hist.len()), b.extra.clone());
-        for _ in 1..b.count {
+        for _ in 1..b.count.max(1) {
             ctx.violation(fp.clone(), "", Value::Null);
         }
     }
@@ -1141,6 +1183,7 @@ pub fn run(ctx: Ctx) -> ! {
         "builds_ok_oracle_evaluated" => build_ok,
         "builds_err_by_kind" => json!(errs),
         "builds_panicked" => acc.build_panic.load(Ordering::Relaxed),
+        "states_with_iteration_order_dependent_build_outcome" => acc.order_dependent_states.load(Ordering::Relaxed),
         "tx_hash_checks" => acc.hash_checks.load(Ordering::Relaxed),
         "redeemer_pointer_checks" => ptr,
         "redeemer_pointer_checks_with_reordered_targets" => reordered,
@@ -1160,6 +1203,7 @@ pub fn run(ctx: Ctx) -> ! {
             "sets (inputs, collateral, reference inputs, signers, datums, scripts) are compared as sets; datums, native scripts and auxiliary data up to CBOR spelling (definite/indefinite, head width)",
             "fee, script_data_hash, redeemer data and ex-units are not in the property's list and are diagnostics only",
             "panics inside staging calls (remove_output out of range) are outside 'building' and reported as diagnostics",
+            "build_conway_raw stops at the first failing redeemer in HashMap iteration order; evaluations of states holding two redeemers that fail for different reasons are evaluated but not pruned and not counted by outcome (counts stay reproducible)",
             "values outside the tiny domains are not covered",
         ],
     )
